@@ -272,6 +272,12 @@ func (nfc *NfcSession) SelectAid(aid []byte) (selected bool, err error) {
 func (nfc *NfcSession) ReadBinaryFromOffset(offset, length int) ([]byte, error) {
 	slog.Debug("ReadBinaryFromOffset", "offset", offset, "length", length)
 
+	// offset is encoded in 15 bits, as bit 8 of P1 switches the chip to short-EF-identifier addressing
+	// (larger offsets would need the odd-INS variant of READ BINARY, which is not implemented)
+	if offset < 0 || offset > 0x7FFF {
+		return nil, fmt.Errorf("[ReadBinaryFromOffset] offset (%d) exceeds the maximum supported by READ BINARY (32767)", offset)
+	}
+
 	var capdu *CApdu = NewCApdu(0x00, INS_READ_BINARY, byte(offset/256), byte(offset%256), nil, length)
 
 	rapdu, err := nfc.DoAPDU(capdu, fmt.Sprintf("Read Binary (offset:%d, length:%d)", offset, length))
